@@ -33,6 +33,24 @@ struct Subject<T: Scalar> {
 
 fn foreign_specs(spec: &Spec) -> Vec<Spec> {
     let mut v = vec![];
+    // same window length, other secondary parameters (a memo keyed by the window length alone)
+    if spec.ch.len() <= 2 && spec.kind != Kind::Add && spec.depth() <= 2 {
+        let mut kinds = vec![spec.kind];
+        match spec.kind {
+            Kind::Alma => kinds.push(Kind::AlmaCustom),
+            Kind::AlmaCustom => kinds.push(Kind::Alma),
+            Kind::Ema => kinds.push(Kind::EmaAlpha),
+            Kind::EmaAlpha => kinds.push(Kind::Ema),
+            _ => {}
+        }
+        for k in kinds {
+            for f in variants(k, spec.n, &Spec::echo()) {
+                if f != *spec {
+                    v.push(f);
+                }
+            }
+        }
+    }
     if crate::spec::entry(spec.kind).has_n && spec.ch.len() <= 2 && spec.kind != Kind::Add {
         for dn in [1usize, 3] {
             let mut f = spec.clone();
@@ -153,6 +171,51 @@ fn check_tree<T: Scalar>(spec: &Spec, depth: usize, st: &mut Stats, sink: &Sink)
     );
 }
 
+/// One replay per configuration in a thread that has never run any view: state hidden in a
+/// `thread_local!` (a scratch buffer, a memo) that other instances have touched in the worker
+/// thread cannot have been touched there.
+fn fresh_thread_twin(spec: &Spec, st: &mut Stats, sink: &Sink) {
+    let alpha = alphabet(spec);
+    let len = spec.total_n() + 8;
+    let hist: Vec<f64> = (0..len).map(|i| alpha[(i * 7 + i / 3) % alpha.len()]).collect();
+    let run = |spec: &Spec, hist: &[f64]| -> Result<Vec<String>, String> {
+        guard(|| {
+            let mut v = build::<f64>(spec);
+            hist.iter()
+                .map(|x| {
+                    v.update(*x);
+                    opt_key(v.last())
+                })
+                .collect()
+        })
+    };
+    let here = run(spec, &hist);
+    let (s2, h2) = (spec.clone(), hist.clone());
+    let there = std::thread::spawn(move || {
+        crate::spec::ADD_KEEPS_HISTORY.with(|c| c.set(true));
+        let r = guard(|| {
+            let mut v = build::<f64>(&s2);
+            h2.iter()
+                .map(|x| {
+                    v.update(*x);
+                    opt_key(v.last())
+                })
+                .collect::<Vec<String>>()
+        });
+        r
+    })
+    .join();
+    st.transitions += 2 * len as u64;
+    st.oracle_evals += 1;
+    st.bump("fresh_thread_twins", 1);
+    if let (Ok(a), Ok(Ok(b))) = (here, there) {
+        if a != b {
+            let k = a.iter().zip(b.iter()).position(|(x, y)| x != y).unwrap_or(0);
+            sink.push(Violation::new("C17", spec, "fresh-thread-twin", "f64", &hist[..=k], format!("the same view fed the same inputs reports {} in a worker thread that has run other instances, but {} in a fresh thread", a[k], b[k])));
+        }
+    }
+}
+
 fn check_closure(spec: &Spec, cap: usize, st: &mut Stats, sink: &Sink) {
     let alpha = alphabet(spec);
     let root = match guard(|| build::<f64>(spec)) {
@@ -217,6 +280,7 @@ pub fn run(ctx: &Ctx) -> CheckOutput {
             let mut st = Stats::default();
             let sink = Sink::new();
             check_tree::<f64>(&spec, depth, &mut st, &sink);
+            fresh_thread_twin(&spec, &mut st, &sink);
             if single {
                 check_closure(&spec, if quick { 3_000 } else { 50_000 }, &mut st, &sink);
             }
